@@ -21,3 +21,10 @@ pub fn maybe_uninit_write<T>(this: &mut core::mem::MaybeUninit<T>, val: T) -> &m
         &mut *p
     }
 }
+
+/// Replacement for `core::fmt::write` in harnesses where formatted text is not the subject (error
+/// messages built on rejection paths): formatting machinery dominates symbolic execution otherwise.
+#[cfg(kani)]
+pub fn fmt_write_nop(_out: &mut dyn core::fmt::Write, _args: core::fmt::Arguments<'_>) -> core::fmt::Result {
+    Ok(())
+}
